@@ -388,10 +388,24 @@ impl Printer {
                     if self.sass {
                         self.stmt(indent, &format!("@debug (a: {}, b: 2)", Self::msg("d", *tag, vars)));
                     } else {
-                        self.ln(indent, "@debug (");
-                        self.ln(indent, &format!("  a: {},", Self::msg("d", *tag, vars)));
-                        self.ln(indent, "  b: 2");
-                        self.ln(indent, ");");
+                        match tag % 3 {
+                            0 => {
+                                self.ln(indent, "@debug (");
+                                self.ln(indent, &format!("  a: {},", Self::msg("d", *tag, vars)));
+                                self.ln(indent, "  b: 2");
+                                self.ln(indent, ");");
+                            }
+                            1 => {
+                                // a space-separated list broken across lines
+                                self.ln(indent, &format!("@debug {}", Self::msg("d", *tag, vars)));
+                                self.ln(indent, "  second");
+                                self.ln(indent, "  third;");
+                            }
+                            _ => {
+                                self.ln(indent, &format!("@debug [{}", Self::msg("d", *tag, vars)));
+                                self.ln(indent, "  second];");
+                            }
+                        }
                     }
                 }
                 Node::BadSelector { tag } => {
@@ -584,7 +598,17 @@ impl<'a> Exec<'a> {
                     let msg = if tag % 2 == 0 { arg.to_string() } else { format!("q{}-{}", tag, arg) };
                     self.out.push(Expected { kind: "debug".into(), file: self.files[fi].path.clone(), line: self.lines[fi][tag], msg });
                 }
-                Node::DebugMulti { tag, vars } => self.out.push(Expected { kind: "debug".into(), file: self.files[fi].path.clone(), line: self.lines[fi][tag], msg: format!("(a: {}, b: 2)", Self::msg("d", *tag, vars, env)) }),
+                Node::DebugMulti { tag, vars } => {
+                    let m = Self::msg("d", *tag, vars, env);
+                    let msg = if self.files[fi].sass || tag % 3 == 0 {
+                        format!("(a: {}, b: 2)", m)
+                    } else if tag % 3 == 1 {
+                        format!("{} second third", m)
+                    } else {
+                        format!("[{} second]", m)
+                    };
+                    self.out.push(Expected { kind: "debug".into(), file: self.files[fi].path.clone(), line: self.lines[fi][tag], msg });
+                }
                 Node::BadSelector { tag } => {
                     self.error = Some(Expected { kind: "error".into(), file: self.files[fi].path.clone(), line: self.lines[fi][tag], msg: "*".into() });
                     return false;
